@@ -1116,3 +1116,38 @@ Proof. apply (rev_swaps_after _ _ ac_abs ac_inv array_chunks_next_ok array_chunk
 Theorem copy_same_future {C I} (nb bb : C -> step I C) h it :
   run_m nb bb h (it_copy it) = run_m nb bb h it /\ final_m nb bb h (it_copy it) = final_m nb bb h it.
 Proof. now rewrite it_copy_id. Qed.
+(** every view the std-spec lists lies inside the slice (so does every view the model
+    yields, by the refinement theorems) *)
+Lemma cnt_index_bound n len i : 1 <= n -> 0 <= len -> 0 <= i < chunks_count n len -> i * n < len.
+Proof.
+  intros Hn Hl Hi. destruct (Z.eqb_spec len 0) as [->|NZ]; [rewrite cnt_zero in Hi; lia|].
+  rewrite cnt_pos in Hi by lia. destruct (last_chunk_bounds n len Hn ltac:(lia)) as [Hq [Hlo _]].
+  assert (i * n <= (len - 1) / n * n) by (apply Z.mul_le_mono_nonneg_r; lia). lia.
+Qed.
+Lemma div_index_bound n len i : 1 <= n -> 0 <= len -> 0 <= i < len / n -> (i + 1) * n <= len.
+Proof.
+  intros Hn Hl Hi. pose proof (Z.div_mod len n ltac:(lia)) as E.
+  pose proof (Z.mod_pos_bound len n ltac:(lia)) as B. rewrite (Z.mul_comm n) in E.
+  assert ((i + 1) * n <= len / n * n) by (apply Z.mul_le_mono_nonneg_r; lia). lia.
+Qed.
+
+Theorem specs_inside n len : 1 <= n -> 0 <= len ->
+  Forall (inside len) (windows_spec n len) /\ Forall (inside len) (chunks_spec n len) /\
+  Forall (inside len) (rchunks_spec n len) /\ Forall (inside len) (chunks_exact_spec n len) /\
+  Forall (inside len) (rchunks_exact_spec n len) /\
+  inside len (chunks_exact_rem n len) /\ inside len (rchunks_exact_rem n len).
+Proof.
+  intros Hn Hl. unfold inside.
+  pose proof (Z.div_mod len n ltac:(lia)) as E. pose proof (Z.mod_pos_bound len n ltac:(lia)) as B.
+  rewrite (Z.mul_comm n) in E. assert (0 <= len / n) by (apply Z.div_pos; lia).
+  assert (0 <= len / n * n) by (apply Z.mul_nonneg_nonneg; lia).
+  refine (conj _ (conj _ (conj _ (conj _ (conj _ (conj _ _))))));
+    try (apply Forall_map_ziota; intros i Hi); unfold chunks_exact_rem, rchunks_exact_rem; cbn [voff vlen].
+  - lia.
+  - pose proof (cnt_index_bound n len i Hn Hl Hi). assert (0 <= i * n) by (apply Z.mul_nonneg_nonneg; lia). lia.
+  - pose proof (cnt_index_bound n len i Hn Hl Hi). assert (0 <= i * n) by (apply Z.mul_nonneg_nonneg; lia). lia.
+  - pose proof (div_index_bound n len i Hn Hl Hi). assert (0 <= i * n) by (apply Z.mul_nonneg_nonneg; lia). lia.
+  - pose proof (div_index_bound n len i Hn Hl Hi). assert (0 <= i * n) by (apply Z.mul_nonneg_nonneg; lia). lia.
+  - lia.
+  - lia.
+Qed.
